@@ -83,6 +83,8 @@ type State struct {
 	entryHeap map[string]string
 	pathID    int
 	havocAllSeen bool // a callee with "modifies everything" was called on this path
+	privates     []privateObj // local aggregates of this path that no callee can reach (see allocIsPrivate)
+	callHeaps    map[string][]map[string]string // heap versions right after the calls named in aftercall(...) clauses
 	calllog   []string
 	callExtra map[string][]string // calls made inside contract-applied callees: symbolic counts per callee name
 	touched   map[string]bool // heap names written on this path (incl. via havoc)
@@ -106,6 +108,13 @@ func (s *State) clone() *State {
 		n.touched[k] = v
 	}
 	n.havocAllSeen = s.havocAllSeen
+	n.privates = append([]privateObj(nil), s.privates...)
+	if s.callHeaps != nil {
+		n.callHeaps = make(map[string][]map[string]string, len(s.callHeaps))
+		for k, v := range s.callHeaps {
+			n.callHeaps[k] = append([]map[string]string(nil), v...)
+		}
+	}
 	n.calllog = append([]string(nil), s.calllog...)
 	if s.callExtra != nil {
 		n.callExtra = map[string][]string{}
@@ -218,6 +227,7 @@ type Ctx struct {
 	// opt startloop N: execution starts at the header of natural loop N from a state that is arbitrary except for the
 	// function's requires and the loop's invariants (values defined before the loop are created fresh on first use)
 	trivialNames map[string]bool
+	afterCallNames map[string]bool // callees named in aftercall(...) clauses of the contract under verification
 	startLoop    *ssa.BasicBlock
 	startLoopEntered bool
 	lazyRegs     bool
@@ -1058,4 +1068,10 @@ func (c *Ctx) allocatedFactB(s *State, ref, bound string) {
 	}
 	s.refFacts[key] = true
 	c.assume(s, fmt.Sprintf("(< (rootid %s) %s)", ref, bound))
+}
+
+// privateObj: a struct-typed local variable (ref of its storage and its type) whose address never leaves the function.
+type privateObj struct {
+	ref string
+	ty  types.Type
 }
